@@ -1,13 +1,17 @@
 """C31 -- the C++ tokenizer reproduces the lexical structure of its input (src/Utilities/CxxTokenizer.cxx).
-Engine H: executable Gallina model of the line splitter (coq/C31Model.v, extracted to OCaml) + Coq theorems about the
-model (termination with fuel bounded by the length, the layout property `covers`, stripComments, a partial round trip)
+Engine H: executable Gallina model of the line splitter (coq/C31Model.v, extracted to OCaml; flags say which of the repairs
+props/C31/fix_*.diff the code contains) + Coq theorems about the model (termination, the layout property `covers` per line and
+`in_cov` for whole multi-line inputs, stripComments, the round trip for all lexical elements of coq/C31Lang.v)
 + correspondence: the REAL CxxTokenizer (CxxTokenizer.cxx, Token.cxx, CxxTokenizerOptions.cxx compiled from REPO) and the
 model give exactly the same token records (value, flag, line, offset, attached comment) or both fail, on
-(a) all strings of length <= 5 over a 14 character alphabet (thorough: also length 6 over 9 characters) and length <= 4 over 24 characters,
+(a) all strings of length <= 5 over a 14 character alphabet (thorough: also length 6 over 9 characters), length <= 4 over 24 characters
+    and over the 17 characters of numeric prefixes / exponents / suffixes / "->*",
 (b) grammar-generated token streams with random layouts (whose expected records are known by construction: an
     independent statement of the property), (c) the .mfront/.mtest files of the repository (whole files and single
     lines) and byte-mutated versions.  Inputs on which the model answers UNSUP (raw strings) are skipped and counted.
-Every real result is also checked against an independent Python statement of the layout property."""
+Five probes are run first through the real code: they select the model variant, the generator's domain and the Coq property
+files, and report the pinned defects with stable keys.  Every real result is also checked against an independent Python
+statement of the layout property."""
 import itertools, os, subprocess
 from vlib import guarded_main, REPO
 
